@@ -76,7 +76,10 @@ CLAIMED = {
         "every sink that splits writes arbitrarily but does not fail, the bytes in front of the old directory are never "
         "touched (invariant over the whole writer state machine, Proofs/FloorInv.v: the cursor never goes below the old "
         "directory start and header patching only addresses records started behind it); C13_failing_sink_refuted shows by "
-        "computation that the failure-free hypothesis cannot be dropped.  "
+        "computation that the failure-free hypothesis cannot be dropped.  THE LISTING (C13_listing_old_then_new): after any "
+        "call sequence the writer's list of records -- what finish() renders -- is the directory the reader parses from the "
+        "old archive, in its order, followed by the creations that succeeded, in call order: no old entry is dropped, renamed "
+        "or reordered whatever happens.  "
         "Histories are carried by the correspondence: base -> (append k entries, maybe replace the comment, finish)* with up "
         "to 4 (thorough 8) rounds over bases from the crate, the independent builder (prefix, forced ZIP64 records and extras, "
         "data descriptors, CP437 names, encrypted neighbour, entry comments), CPython zipfile and the empty archive; each "
@@ -84,7 +87,7 @@ CLAIMED = {
         "entries unchanged and in order (name, method, sizes, CRC, time, mode, stored bytes, header offset; byte span header..data identical in place), new entries "
         "follow and decode to what was written, comment kept unless replaced (found and fixed D19: stale end record).",
    note="Trusted: Coq kernel, extraction+driver, harness, genzip.py/zipfile as base producers, CPython zlib/bz2. PARTIAL: the reader-level theorem over appended archives (old entries listed first with the same fields, for all histories) is not proved end to end; multi-round preservation of the listing is decided per generated history.",
-   technique="Coq proof (state established by new_append, re-emitted record round trip, old-bytes invariant over all call sequences) + byte-exact multi-round append correspondence with by_index_raw oracle",
+   technique="Coq proof (state established by new_append, re-emitted record round trip, old-bytes invariant and old-then-new listing over all call sequences) + byte-exact multi-round append correspondence with by_index_raw oracle",
    design="8 (C13)"),
  "C14": dict(
    text="Machine-checked Coq theorem over the writer model, for every writer state whose previous entry closes onto a "
